@@ -235,6 +235,35 @@ def correspond(ctx, scale):
                 if i_.dtype not in (torch.int32, torch.int64) or int(i_.min()) < 0 or int(i_.max()) >= K_ or tuple(i_.shape) != (2, 6) or tuple(o_.shape) != (2, 6, dd):
                     failures.append({'key': f'fsq:large-levels:{str(dt).split(".")[-1]}:{how}:index-range', 'what': f'FSQ({lv}) with {dt} via {how}: indices {i_.dtype} span [{int(i_.min())}, {int(i_.max())}] '
                                      f'(codebook size {K_}), shapes {tuple(o_.shape)} / {tuple(i_.shape)}', 'case': dict(levels=lv, dtype=str(dt), how=how)})
+    # BLANKET casts: nn.Module.type(dtype) casts EVERY buffer, integer ones included (so does loading a checkpoint converted with {k: v.float()} under
+    # assign=True) - indices stay integer-typed, in range and of the documented shape whatever dtype the bookkeeping buffers have
+    for sp in S:
+        if sp['name'] == 'vq' and sp['kw'].get('heads', 1) != 1:
+            continue
+        for how in ('type-float32', 'type-float64-float32', 'assign-float-checkpoint'):
+            try:
+                mod = sp['mk']()
+                if how == 'type-float32':
+                    mod = mod.type(torch.float32)
+                elif how == 'type-float64-float32':
+                    mod = mod.type(torch.float64).type(torch.float32)
+                else:
+                    mod.load_state_dict({k_: (v_.float() if v_.dtype != torch.bool else v_) for k_, v_ in mod.state_dict().items()}, assign=True)
+                mod.eval()
+                shp = in_shape(sp['layout'], sp['dim'], 2, 1 if sp['layout'] in ('single', 'single_cf') else 3)
+                with torch.no_grad():
+                    ret = mod(torch.randn(*shp))
+            except Exception:
+                continue          # a cast the class cannot run under is a loud failure, not a silent change of the index type
+            idx = ret if sp.get('indices_only') else ret[1]
+            if isinstance(idx, (tuple, list)):
+                idx = torch.stack(list(idx))
+            ev += 1
+            dist['blanket_cast_modules'] = dist.get('blanket_cast_modules', 0) + 1
+            if idx.dtype not in (torch.int32, torch.int64) or float(idx.min()) < 0 or float(idx.max()) >= sp['K']:
+                failures.append({'key': f'{sp["name"]}:{sp["layout"]}:blanket-cast:{how}:index-dtype', 'what': f'{sp["name"]}({sp["kw"]}) after {how}: indices are {idx.dtype} spanning [{float(idx.min())}, {float(idx.max())}] '
+                                 f'(integer-typed indices in [0, {sp["K"]}) are documented)', 'case': dict(kw={k: str(v) for k, v in sp['kw'].items()}, how=how)})
+                break
     # quantize-dropout in training: dropped layers report -1 but indices stay integer-typed and keep the documented shape
     from vector_quantize_pytorch import ResidualVQ, GroupedResidualVQ, ResidualFSQ, ResidualLFQ, ResidualSimVQ
     import random as _r
